@@ -103,7 +103,7 @@ PROPS = {
                      "AtomicUsize::fetch_add is modelled as a wrapping add on a plain usize"],
     ),
     "C08": dict(
-        units=["security", "store", "dispatch", "listing", "replies", "outbox", "sessions"],
+        units=["security", "store", "dispatch", "listing", "replies", "outbox", "sessions", "parser"],
         kani=[K_FILTER],
         undecided=["handlers that do not go through apply_if_safe_access: the Resolve, Arbiter and rp (ReplicateRequest) arms of the dispatcher "
                    "- a non-admin `resolve ... $$token ...` is outside every contract here (the six keyed data arms get / get-safe / watch / set / increment / "
